@@ -89,6 +89,10 @@ pub struct LinkCfg {
     /// a budget-respecting application: a scripted send waits (keeping script order) until the
     /// sender's channel offers its whole budget again, i.e. everything earlier was acknowledged
     pub gated_sends: bool,
+    /// both endpoints have been up for this long before the scenario starts (one long update call)
+    pub initial_uptime_ms: u64,
+    /// link latency: every packet needs this many extra ticks (a scale class, not a deviation)
+    pub base_delay_ticks: u32,
 }
 
 #[derive(Clone, Copy, Debug, PartialEq, Eq)]
@@ -132,6 +136,8 @@ impl LinkCfg {
             msg_id0: None,
             base_drop_slice_idx: None,
             gated_sends: false,
+            initial_uptime_ms: 0,
+            base_delay_ticks: 0,
         }
     }
     pub fn connection_config(&self) -> ConnectionConfig {
@@ -282,6 +288,10 @@ impl Ends {
                 }
             }
         }
+        if cfg.initial_uptime_ms > 0 {
+            a.update(Duration::from_millis(cfg.initial_uptime_ms));
+            b.update(Duration::from_millis(cfg.initial_uptime_ms));
+        }
         Ends { a, b }
     }
     pub fn snapshot(&self, e: usize) -> Option<ConnectionSnapshot> {
@@ -414,7 +424,7 @@ impl<'c> Link<'c> {
             cfg,
             ends: Ends::new(cfg),
             tick: 0,
-            now_ms: [0, 0],
+            now_ms: [cfg.initial_uptime_ms, cfg.initial_uptime_ms],
             emitted: Vec::new(),
             flights: [Vec::new(), Vec::new()],
             flushes: [0, 0],
@@ -673,6 +683,7 @@ impl<'c> Link<'c> {
                         ctx.note(|| format!("t{} net: pkt{} fate {:?}", tick, i, fate));
                     }
                     let fl = &mut self.flights[dir];
+                    let tick = tick + cfg.base_delay_ticks;
                     match fate {
                         Fate::Ok => fl.push(Flight { pkt: i, due: tick }),
                         Fate::Drop => {}
